@@ -27,7 +27,8 @@ RULE = (
     "case = (sequence of <=7 stores/loads over generated location expressions in several spellings, storage layout, "
     "transient or persistent; inputs: 6 valuations of the key/index words from a tiny colliding domain + random + z3-guided). "
     "Non-trivial = >=2 stores whose locations can coincide for one valuation and differ for another (symbolic key/index), "
-    "or one location written in two spellings; distinct by (program, layout, input)."
+    "or one location written in two spellings; distinct by (program, layout, input). A third of the programs fork on the "
+    "equality of two locations before the read-back; a quarter contain a sub-call that fails on every side of a fork between two operations."
 )
 ASSUMPTIONS = [
     "every base slot has one type, as in compiler output: the base slot under a mapping, under a dynamic array and a scalar slot are never the same number within one program (the solidity layout files locations by (slot, keys) and does not model a slot that is both)",
@@ -42,7 +43,7 @@ WATCHDOG_S = {"quick": 2400, "thorough": 10800}
 
 MANIFEST = {
     "technique": "differential testing of generated store/load sequences over a grammar of Solidity-style location expressions in multiple spellings against a flat-storage reference EVM with real keccak; both storage layouts; two-transaction variant for transient storage",
-    "text": "Generated programs write and read storage through scalars, mappings (256-bit and packed odd-width keys), dynamic arrays, struct offsets and their nestings, with symbolic keys/indices drawn from tiny colliding domains and with each location spelled as a runtime hash, as the precomputed hash constant plus an offset (including offsets that cross a 2^16 block of the hash value and negative offsets) and with reordered additions; every loaded value is returned and must equal the reference EVM's flat storage for every concrete input admitted by the reported path, in the solidity and generic layouts, for SSTORE/SLOAD and TSTORE/TLOAD, and across two transactions.",
+    "text": "Generated programs write and read storage through scalars, mappings (256-bit and packed odd-width keys), dynamic arrays, struct offsets and their nestings, with symbolic keys/indices drawn from tiny colliding domains and with each location spelled as a runtime hash, as the precomputed hash constant plus an offset (including offsets that cross a 2^16 block of the hash value and negative offsets) and with reordered additions; every loaded value is returned and must equal the reference EVM's flat storage for every concrete input admitted by the reported path, in the solidity and generic layouts, for SSTORE/SLOAD and TSTORE/TLOAD, across two transactions, and on every sibling path that resumes after a sub-call which forked and failed.",
     "note": "trusts refevm + symeval; unsupported location shapes that halmos reports as stuck are counted and skipped",
 }
 
